@@ -150,6 +150,18 @@ def run_apalache(module, inv, length, timeout=900):
     return {"module": "apalache/" + module, "invariant": inv, "length": length, "outcome": "NoError", "wall_s": round(time.time() - t0, 1)}
 
 
+def build_script_env():
+    """The generator is documented to run in a build script: cargo gives that process these variables (an old `rust-version`
+    on purpose). The scrubbed-environment process of C18 runs without any of them."""
+    out = os.path.join(WORK, "build_script", "out")
+    os.makedirs(out, exist_ok=True)
+    t = "x86_64-unknown-linux-gnu"
+    return {"OUT_DIR": out, "CARGO_MANIFEST_DIR": os.path.dirname(out), "CARGO_PKG_NAME": "shader_consumer", "CARGO_PKG_VERSION": "0.3.1", "CARGO_PKG_RUST_VERSION": "1.64",
+            "CARGO_PKG_AUTHORS": "", "CARGO_CRATE_NAME": "build_script_build", "TARGET": t, "HOST": t, "PROFILE": "debug", "OPT_LEVEL": "0", "DEBUG": "true", "NUM_JOBS": "16",
+            "CARGO_CFG_TARGET_OS": "linux", "CARGO_CFG_TARGET_ARCH": "x86_64", "CARGO_CFG_UNIX": "", "CARGO_ENCODED_RUSTFLAGS": "", "RUSTC": "rustc", "CARGO_MAKEFLAGS": "-j16",
+            "CARGO_FEATURE_DEFAULT": "1"}
+
+
 def _vdriver_once(cpath, tpath, keep, detail, outdir, extra, timeout):
     cmd = [VDRIVER, "gen", cpath, tpath, "--detail", str(detail)]
     if keep is not None:
@@ -158,7 +170,7 @@ def _vdriver_once(cpath, tpath, keep, detail, outdir, extra, timeout):
         cmd += ["--out", outdir]
     if extra:
         cmd += extra
-    return run(cmd, timeout=timeout)
+    return run(cmd, timeout=timeout, env=build_script_env())
 
 
 def run_vdriver(cases, tag, keep=None, detail=0, outdir=None, extra=None, case_timeout=None):
@@ -219,7 +231,7 @@ def run_vdriver_raw(sub, in_objs, tag, cwd=None, env=None, clean_env=False, extr
             f.write(json.dumps(o) + "\n")
     tp = os.path.join(d, "trace.ndjson")
     cmd = [VDRIVER, sub, ip, tp] + (extra or [])
-    e = {"PATH": os.environ.get("PATH", ""), "HOME": os.environ.get("HOME", "/root")} if clean_env else dict(os.environ)
+    e = {"PATH": os.environ.get("PATH", ""), "HOME": os.environ.get("HOME", "/root")} if clean_env else dict(os.environ, **build_script_env())
     if env:
         e.update(env)
     p = subprocess.run(cmd, cwd=cwd, env=e, timeout=timeout, stdout=subprocess.PIPE, stderr=subprocess.STDOUT, text=True, errors="replace")
